@@ -18,24 +18,32 @@ import sys
 from .utils import from_u16, to_u16
 
 
+def frame_cell(vm, offset):
+    """
+    Return the address of the cell `offset` cells above the frame pointer. Addresses wrap
+    around at 2**16, as they do for LOAD and STORE.
+    """
+    return (vm.registers[14] + offset) & 0xFFFF
+
+
 def tiger_printint_stack(vm):
-    print(from_u16(vm.load_memory(vm.registers[14] + 3)), end="")
+    print(from_u16(vm.load_memory(frame_cell(vm, 3))), end="")
 
 
 def tiger_printbool_stack(vm):
-    v = vm.load_memory(vm.registers[14] + 3)
+    v = vm.load_memory(frame_cell(vm, 3))
     print("false" if v == 0 else "true", end="")
 
 
 def tiger_print_stack(vm):
-    addr = vm.load_memory(vm.registers[14] + 3)
+    addr = vm.load_memory(frame_cell(vm, 3))
     n = vm.load_memory(addr)
     for i in range(n):
         print(chr(vm.load_memory(addr + i + 1)), end="")
 
 
 def tiger_println_stack(vm):
-    addr = vm.load_memory(vm.registers[14] + 3)
+    addr = vm.load_memory(frame_cell(vm, 3))
     n = vm.load_memory(addr)
     for i in range(n):
         print(chr(vm.load_memory(addr + i + 1)), end="")
@@ -75,15 +83,15 @@ def tiger_mod(left, right):
 
 
 def tiger_div_stack(vm):
-    left = vm.load_memory(vm.registers[14] + 3)
-    right = vm.load_memory(vm.registers[14] + 4)
-    vm.store_memory(vm.registers[14] + 3, tiger_div(left, right))
+    left = vm.load_memory(frame_cell(vm, 3))
+    right = vm.load_memory(frame_cell(vm, 4))
+    vm.store_memory(frame_cell(vm, 3), tiger_div(left, right))
 
 
 def tiger_mod_stack(vm):
-    left = vm.load_memory(vm.registers[14] + 3)
-    right = vm.load_memory(vm.registers[14] + 4)
-    vm.store_memory(vm.registers[14] + 3, tiger_mod(left, right))
+    left = vm.load_memory(frame_cell(vm, 3))
+    right = vm.load_memory(frame_cell(vm, 4))
+    vm.store_memory(frame_cell(vm, 3), tiger_mod(left, right))
 
 
 def tiger_getchar_ord_stack(vm):
@@ -95,7 +103,7 @@ def tiger_getchar_ord_stack(vm):
         vm.input_pos += 1
     else:
         c = 0
-    vm.store_memory(vm.registers[14] + 3, c)
+    vm.store_memory(frame_cell(vm, 3), c)
 
 
 def tiger_ungetchar_stack(vm):
@@ -103,7 +111,7 @@ def tiger_ungetchar_stack(vm):
 
 
 def tiger_putchar_ord_stack(vm):
-    print(chr(vm.load_memory(vm.registers[14] + 3)), end="")
+    print(chr(vm.load_memory(frame_cell(vm, 3))), end="")
 
 
 def tiger_flush_stack(vm):
